@@ -73,3 +73,12 @@ Properties/C07.vos Properties/C07.vok Properties/C07.required_vos: Properties/C0
 Properties/C08.vo Properties/C08.glob Properties/C08.v.beautified Properties/C08.required_vo: Properties/C08.v Base.vo Prim.vo
 Properties/C08.vio: Properties/C08.v Base.vio Prim.vio
 Properties/C08.vos Properties/C08.vok Properties/C08.required_vos: Properties/C08.v Base.vos Prim.vos
+Model/NumTraits.vo Model/NumTraits.glob Model/NumTraits.v.beautified Model/NumTraits.required_vo: Model/NumTraits.v Base.vo Prim.vo Model/Digit.vo Model/Core.vo Model/Shift.vo Model/AddSub.vo Model/Mul.vo Model/Div.vo Model/Bits.vo Model/Pow.vo
+Model/NumTraits.vio: Model/NumTraits.v Base.vio Prim.vio Model/Digit.vio Model/Core.vio Model/Shift.vio Model/AddSub.vio Model/Mul.vio Model/Div.vio Model/Bits.vio Model/Pow.vio
+Model/NumTraits.vos Model/NumTraits.vok Model/NumTraits.required_vos: Model/NumTraits.v Base.vos Prim.vos Model/Digit.vos Model/Core.vos Model/Shift.vos Model/AddSub.vos Model/Mul.vos Model/Div.vos Model/Bits.vos Model/Pow.vos
+Run/RunC18.vo Run/RunC18.glob Run/RunC18.v.beautified Run/RunC18.required_vo: Run/RunC18.v Base.vo Prim.vo Model/Core.vo Model/Shift.vo Model/AddSub.vo Model/Mul.vo Model/Div.vo Model/Bits.vo Model/Pow.vo Model/NumTraits.vo Run/RunBase.vo
+Run/RunC18.vio: Run/RunC18.v Base.vio Prim.vio Model/Core.vio Model/Shift.vio Model/AddSub.vio Model/Mul.vio Model/Div.vio Model/Bits.vio Model/Pow.vio Model/NumTraits.vio Run/RunBase.vio
+Run/RunC18.vos Run/RunC18.vok Run/RunC18.required_vos: Run/RunC18.v Base.vos Prim.vos Model/Core.vos Model/Shift.vos Model/AddSub.vos Model/Mul.vos Model/Div.vos Model/Bits.vos Model/Pow.vos Model/NumTraits.vos Run/RunBase.vos
+Properties/C18.vo Properties/C18.glob Properties/C18.v.beautified Properties/C18.required_vo: Properties/C18.v Base.vo Prim.vo
+Properties/C18.vio: Properties/C18.v Base.vio Prim.vio
+Properties/C18.vos Properties/C18.vok Properties/C18.required_vos: Properties/C18.v Base.vos Prim.vos
